@@ -5,11 +5,13 @@
 package c07
 
 import (
+	"bytes"
 	"errors"
 	"fmt"
 	"io"
 	"slices"
 	"sort"
+	"time"
 
 	"github.com/c2FmZQ/ech"
 
@@ -273,11 +275,12 @@ func execute(sc scenario, p perturbation, sink violationSink) (outcome string) {
 			k := transportWrites
 			transportWrites++
 			if k == p.FaultK {
-				faulted = true
 				n := min(p.FaultN, len(b))
 				if p.FaultErr == "short" {
+					faulted = n < len(b) // (a "short" write that takes everything it was given is no fault)
 					return n, nil
 				}
+				faulted = true
 				return n, errInjected
 			}
 			return len(b), nil
@@ -729,6 +732,26 @@ func Run(r *ev.Run) {
 				}
 			}
 		}
+		// two deviations: the backend's first flight handed over in three pieces (the last one short: 1 or 2 bytes that complete
+		// a record buffered by the earlier calls) AND the transport write that flushes it failing / being short: the count Write
+		// reports stays within what it was given
+		for stepIdx, st := range sc.steps {
+			if st.dir != 'b' || len(st.data) < 12 {
+				continue
+			}
+			firstRec := recordBoundaries(st.data)[0]
+			for _, tail := range []int{1, 2} {
+				for _, kind := range []string{"err", "short"} {
+					for _, n := range []int{0, 1, 4, firstRec - 1} {
+						p := none
+						p.Scenario, p.Buf, p.WriteStep, p.WriteSplits = sc.name, 4096, stepIdx, []int{3, firstRec - tail}
+						p.FaultK, p.FaultN, p.FaultErr = 0, n, kind
+						jobs = append(jobs, job{si, p})
+					}
+				}
+			}
+			break
+		}
 	}
 	r.Set("perturbations", len(jobs))
 	enum.ParallelFor(len(jobs), func(i int) {
@@ -742,6 +765,81 @@ func Run(r *ev.Run) {
 			r.Sample(j.p)
 		}
 	})
+
+	// ---- record-layer versions: legacy_record_version "MUST be ignored for all purposes" (RFC 8446 §5.1): records of every content
+	// type carrying unusual version bytes cross the Conn unchanged, in both directions, before and after application data ----
+	{
+		b0 := scs[0]
+		ch0 := b0.steps[0].data[:b0.steps[0].rewritten[0][1]]
+		in0 := b0.steps[0].expect[:5+(int(b0.steps[0].expect[3])<<8|int(b0.steps[0].expect[4]))]
+		for _, ver := range []uint16{0x0000, 0x0200, 0x0300, 0x0301, 0x0304, 0x0400, 0x7f1c, 0xfefd, 0xffff} {
+			for _, typ := range []byte{20, 21, 22, 23} {
+				for _, dirB := range []bool{false, true} {
+					var rc []byte
+					if typ == 22 {
+						rc = tlsref.Record(22, ver, tlsref.HandshakeMsg(11, tlsref.DetBytes("ver", 30)))
+					} else {
+						rc = tlsref.Record(typ, ver, tlsref.DetBytes("ver", 20))
+					}
+					tail := tlsref.Record(23, ver, tlsref.DetBytes("ver-app", 9))
+					sc := scenario{name: fmt.Sprintf("version-%04x-type%d", ver, typ), keys: b0.keys}
+					if dirB {
+						sc.steps = []step{{dir: 'c', data: ch0, expect: in0, rewritten: [][2]int{{0, len(ch0)}}}, {dir: 'b', data: cat(rc, tail, rc), expect: cat(rc, tail, rc)}}
+					} else {
+						sc.steps = []step{{dir: 'c', data: cat(ch0, rc, tail, rc), expect: cat(in0, rc, tail, rc), rewritten: [][2]int{{0, len(ch0)}}}}
+					}
+					p := none
+					p.Scenario, p.Buf = fmt.Sprintf("%s backend=%v", sc.name, dirB), 70000
+					oc := execute(sc, p, func(key, what string) {
+						r.Violation(fmt.Sprintf("%s:record-version:type%d:backend=%v", key, typ, dirB), what, p)
+					})
+					r.Eval(p.Scenario, "record-version -> "+oc)
+				}
+			}
+		}
+	}
+	// ---- a read that fails TEMPORARILY (the caller's own read deadline expires, as net/http does between requests) on a
+	// pass-through connection: the deadline is lifted, more bytes arrive, and they are delivered ----
+	{
+		plainSc := scs[len(scs)-1]
+		for _, sc := range scs {
+			if sc.name == "pass-through" {
+				plainSc = sc
+			}
+		}
+		hello := plainSc.steps[0].data
+		t := memnet.New()
+		t.Feed(hello)
+		conn, err := ech.NewConn(ctxBG, t, ech.WithKeys(plainSc.keys))
+		buf := make([]byte, 70000)
+		if err != nil || conn.ECHAccepted() {
+			ev.ToolError("c07: pass-through scenario does not pass through: %v", err)
+		}
+		var got []byte
+		for i := 0; i < 1000 && (t.Pending() > 0 || len(got) == 0); i++ {
+			n, err := conn.Read(buf)
+			got = append(got, buf[:n]...)
+			if err != nil {
+				break
+			}
+		}
+		for round := 0; round < 3; round++ {
+			conn.SetReadDeadline(time.Now().Add(-time.Second))
+			if n, err := conn.Read(buf); err == nil || n != 0 {
+				ev.ToolError("c07: expired read deadline did not fail the read (%d, %v)", n, err)
+			}
+			conn.SetReadDeadline(time.Time{})
+			chunk := tlsref.Record(23, 0x0303, tlsref.DetBytes(fmt.Sprint("after-timeout", round), 25))
+			t.Feed(chunk)
+			n, err := conn.Read(buf)
+			if err != nil || !bytes.Equal(buf[:n], chunk) {
+				r.Violation("temporary-read-error-sticky:pass-through", fmt.Sprintf("after the caller's read deadline had expired and was lifted again, Read returned (%d, %v) instead of the %d bytes that arrived (round %d)", n, err, len(chunk), round), map[string]any{"round": round})
+				break
+			}
+		}
+		_ = got
+		r.Eval("temporary-read-error", "pass-through: deadline expiry is not sticky")
+	}
 
 	// ---- every record length x content type, both directions ----
 	lengths := []int{}
